@@ -153,6 +153,16 @@ def run(tier):
     ctx.log("URW call sequences: %d sessions, %d model/impl mismatches" % (len(uc), len(um)))
     if um:
         ctx.disagreements_checked += len(um)
+        # a session on which the real scheduler panics while the verified model answers (the model's answers are offered
+        # tasks with positive weights: C10_urw_offered, C10_urw_counts_stay_positive) is a failing input
+        rep = 0
+        for i in um:
+            a, b = (umo[i] or "").split(","), (uio[i] or "").split(",")
+            k = next((j for j in range(min(len(a), len(b))) if a[j] != b[j]), None)
+            if k is not None and b[k] == "P" and a[k].startswith(("t", "e", "u")) and rep < 3:
+                rep += 1
+                ctx.violation({"layer": "sched", "cases": [uc[i]], "implementation_answer": uio[i], "model_answer": umo[i],
+                               "why": "UrwRandomScheduler panics at call %d of a call sequence on which the verified model answers %s" % (k, a[k])})
         ctx.broken.append({"kind": "correspondence", "layer": "sched", "what": "Sched/Urw.v and urw.rs disagree on %d of %d call sequences; the theorems C10_urw_* are about a model that no longer describes the code" % (len(um), len(uc)),
                            "examples": [{"case": uc[i], "model": umo[i], "impl": uio[i]} for i in um[:3]]})
     # oracle on the implementation's own answers: the chosen task is one of the offered ones
